@@ -57,6 +57,10 @@ CHECKS = {
   text="Keyword dispatcher specialised per PathSearchKeywords member; per-branch summaries of the max/min scans (operator, operand roles, discard-before-reset, ties, inversion) compared with the definitions and with each other; unique's size predicates evaluated over group sizes 0..4 by the partial evaluator; distinct's first-of-group; group keying; has_child's XOR match tests; parent's bounded climb behind the root refusal; name's parentref; parameter-count refusals evaluated over counts 0..3. Which members win for given values is run-time and declined.",
   note="Trusted base: Searches.search_matches implements the operators (C12); dict insertion order.",
   technique="partial evaluation per enum member + scan-loop summarisation and sibling comparison + small-domain predicate evaluation"),
+ "C05": dict(
+  text="Policy tables extracted by partial evaluation of every merger routine per policy-enum member (arrays, Arrays-of-Hashes, sets, hashes at the merge point and below hash keys, per value kind) and compared with the documented meaning of each member; precedence ladders of the five MergerConfig accessors (rule > CLI > config default > built-in default, one option name, one enum class, documented defaults); every raise is MergeException and every impossible kind combination is refused; from_str normal form across nine enums. Equality of the merged document with the reference result is declined.",
+  note="Trusted base: ruamel container API; configparser/argparse deliver option strings.",
+  technique="partial evaluation per enum member (decision-table extraction) + ladder/normal-form comparison across sibling functions"),
 }
 
 NOT_BUILT = "check not built yet (framework under construction; will be claimed at clause level per DESIGN.md)"
